@@ -85,6 +85,8 @@ ASSUMPTIONS = [
     "un-namespaced attributes is not exercised",
     "main activity: only bounds are judged (see 'not judged' notes): enabled activities with MAIN and LAUNCHER in one filter "
     "must be reported; nothing may be reported that does not carry both MAIN and LAUNCHER",
+    "reading of 'main activity ... exactly those the manifest declares': whenever an enabled <activity> carries MAIN+LAUNCHER in one "
+    "filter, get_main_activity() must name a declared <activity>, not a launcher <activity-alias>",
     "effective target SDK is judged only when the values involved are numeric (target, else min, else 1); with a codename "
     "only 'int > 0' (the documented contract) is demanded",
     "the full cartesian product of all dimensions is replaced by the all-pairs-around-two-bases union stated in space()",
@@ -179,10 +181,11 @@ def main_alphabet():
     return out
 
 
-# The statement speaks of "the main activity" only; whether a launcher <activity-alias> may be reported although an enabled real
-# <activity> carries MAIN+LAUNCHER too is not fixed by it (for Android both are launcher entries).  Observed, not judged,
-# unless this switch is turned on (then: with such a real activity declared, get_main_activity() must name a declared activity).
-JUDGE_ALIAS_PREFERENCE = False
+# Reading of the statement (decided centrally): 'main activity' is among the things that must be exactly those the manifest declares,
+# so the main ACTIVITY must be a declared <activity> whenever an enabled launcher <activity> exists; a launcher <activity-alias> may
+# only be reported when no such activity exists (HEAD does this deliberately: good_main_activities = main & get_activities()).
+# The observation counters are kept either way.
+JUDGE_ALIAS_PREFERENCE = True
 
 
 MAIN_ALPHA = None
@@ -920,6 +923,6 @@ def finalize(ctx, acc):
             + acc.extra.get("notjudged:alias-reported-as-main-activity-although-real-launcher-activity-declared", 0)):
         acc.harness_error("vacuous: no model with a real launcher activity next to a launcher alias was observed")
     acc.note("not judged: whether an activity-alias / an enabled=false activity / MAIN and LAUNCHER in different filters counts as "
-             "main activity, and whether get_main_activity() prefers a real launcher activity over a launcher alias (the statement "
-             "does not fix it; JUDGE_ALIAS_PREFERENCE) (observed behaviour is counted in notjudged:*); effective target SDK with codename values beyond "
+             "main activity when no enabled launcher <activity> exists (observed behaviour is counted in notjudged:*; the preference "
+             "of a real launcher activity over a launcher alias IS judged, its two counters are kept); effective target SDK with codename values beyond "
              "'int > 0'; get_declared_permissions, get_details_permissions, implied permissions; multiplicity of APK.uses_permissions")
